@@ -92,7 +92,9 @@ type Conn struct {
 	Name        string
 	peer        *Conn
 	// Sent records every data message written on this end (harness oracle).
-	Sent []Msg
+	Sent   []Msg
+	wguard byte
+	rguard byte
 }
 
 // Pair returns two connected ends.
@@ -124,6 +126,8 @@ func (c *Conn) ReadMessage() (int, []byte, error) {
 	if c.readErr != nil {
 		return 0, nil, c.readErr
 	}
+	// ... and one concurrent reader
+	vs.Access(unsafe.Pointer(&c.rguard), "websocket connection "+c.Name+" (concurrent read from websocket connection)", true)
 	for {
 		vs.Wait("ws.Read "+c.Name, unsafe.Pointer(c.in), func() bool {
 			return len(c.in.q) > 0 || c.in.netDown || c.closed
@@ -168,6 +172,9 @@ func (c *Conn) WriteMessage(messageType int, data []byte) error {
 		return errors.New("aborted")
 	}
 	vs.Point("ws.Write "+c.Name, unsafe.Pointer(c.out))
+	// gorilla supports one concurrent writer: two WriteMessage calls that are not
+	// ordered by synchronisation panic with "concurrent write to websocket connection"
+	vs.Access(unsafe.Pointer(&c.wguard), "websocket connection "+c.Name+" (concurrent write to websocket connection)", true)
 	if c.closed {
 		return fmt.Errorf("write %s: use of closed network connection", c.Name)
 	}
